@@ -41,7 +41,7 @@ def body_len(kind, d, p, section_len):
 
 
 def min_len(kind):
-    return {'UD': 9, 'ED': 13, 'other': 9}.get(kind, 0)
+    return {'UD': 8, 'ED': 12, 'other': 8}.get(kind, 0)
 
 
 class ParseHeader(Unit):
@@ -105,7 +105,7 @@ class DefaultSec(SectionUnit):
 
     def pre(self, S, inp):
         s = inp['stream']
-        return And(ds_invariant(s), inp['sectionLen'] >= 9, field(s, 'index') + inp['sectionLen'] - 8 <= field(s, 'size'))
+        return And(ds_invariant(s), inp['sectionLen'] >= 8, field(s, 'index') + inp['sectionLen'] - 8 <= field(s, 'size'))
 
     def check(self, P, inp, old, out):
         P.prove(out.returned, "decodes when the declared payload is present")
@@ -116,8 +116,9 @@ class DefaultSec(SectionUnit):
         n = inp['sectionLen'] - 8
         P.prove(Eq(field(inp['stream'], 'index'), o + n), "consumes exactly sectionLen - 8 bytes")
         if P.symbolic:
+            payload = memoryview(b'') if branch(Eq(n, 0)) else view_mv(d, o, n)      # header-only section: the dump of nothing
             items = [("Section Version", inp['versionID']), ("Sub-section type", inp['subType']),
-                     ("Created by", Num(inp['componentID'])), ("Data", [Chunk(spec_hexdump_term(view_mv(d, o, n)))])]
+                     ("Created by", Num(inp['componentID'])), ("Data", [Chunk(spec_hexdump_term(payload))])]
             check_dict(P, js, items, "Default")
         else:
             from pel.hexdump import hexdump
@@ -151,7 +152,7 @@ class UDInit(SectionUnit):
 
     def pre(self, S, inp):
         s = inp['stream']
-        lo = 13 if self.shard == 1 else 9
+        lo = 12 if self.shard == 1 else 8        # a section may consist of its header alone (empty payload)
         d, o = field(s, 'data'), field(s, 'index')
         return And(ds_invariant(s), inp['sectionLen'] >= lo, field(s, 'index') + inp['sectionLen'] - 8 <= field(s, 'size'),
                    Implies(self.shard == 1, byte(d, o) < 128))
